@@ -318,7 +318,7 @@ func c02Find(c *Ctx, cs *C02Case, r *Rng, out *CaseOut, wantSig string) []c02Fai
 			if dim == "map-order-native" && v.ex.Order == simrt.OrderNative && anyPrefix(seen, kind+"|map-order|") {
 				continue // same cause as the controlled map-order divergence already recorded
 			}
-			if dim == "combination" && len(seen) > 0 {
+			if dim == "combination" && anyPrefix(seen, kind+"|") {
 				continue // combinations exist to catch interactions; a single dimension already explains this case
 			}
 			sig := kind + "|" + dim + "|" + c02Construct(u)
